@@ -119,7 +119,7 @@ CLAIMED["C04"] = dict(
            "skips exactly one node (buffered: consumes nothing); LastWins has no duplicate test; the fingerprint is looked up and "
            "inserted before every delivery; the three node-skipping loops are balanced depth automata (+1 both starts, −1 both "
            "ends, 0 scalars, enter at 1, exit at 0); KeyFingerprint derives PartialEq/Eq/Hash together and its scalar variant "
-           "carries exactly {value, tag}. Not decided: equality of fingerprints for all structurally equal nodes; result equality "
+           "carries the text, the tag kind and the text of an application tag — nothing positional. Not decided: equality of fingerprints for all structurally equal nodes; result equality "
            "with de-duplicated renderings."),
     note=_NOTE, technique="static analysis: sibling agreement of policy dispatch, depth-automaton abstraction of skipping loops, type-table rules on MIR / ADT facts")
 
@@ -339,7 +339,7 @@ CLAIMED["C04"] = dict(
            "skips exactly one node (buffered: consumes nothing); LastWins has no duplicate test; the fingerprint is looked up and "
            "inserted before every delivery; the three node-skipping loops are balanced depth automata (+1 both starts, −1 both "
            "ends, 0 scalars, enter at 1, exit at 0); KeyFingerprint derives PartialEq/Eq/Hash together and its scalar variant "
-           "carries exactly {value, tag}. Not decided: equality of fingerprints for all structurally equal nodes; result equality "
+           "carries the text, the tag kind and the text of an application tag — nothing positional. Not decided: equality of fingerprints for all structurally equal nodes; result equality "
            "with de-duplicated renderings."),
     note=_NOTE, technique="static analysis: sibling agreement of policy dispatch, depth-automaton abstraction of skipping loops, type-table rules on MIR / ADT facts")
 
